@@ -106,7 +106,13 @@ def generate(seed, tier):
             ops.append({"op": "leakramp", "upto": rng.choice([1100, 300, 600]), "every": rng.choice([1, 1, 7])})
         k = rng.choice(kinds)
         if k == "mkgrid":
-            ops.append({"op": "mkgrid", "kind": rng.choice(["E", "O1", "O2"])})
+            kind_ = rng.choice(["E", "O1", "O2"])
+            ops.append({"op": "mkgrid", "kind": kind_})
+            # the user then looks at the new signal's axes / spectrum (handle -1 = the newest object of the pool)
+            fn_ = rng.choice(["m.w", "m.w", "m.t", "m.call", "m.power"])
+            ops.append({"op": "call", "user": rng.randrange(n_users), "fn": fn_, "args": dict(CAT[fn_][1](rng), on=kind_[0]),
+                        "in": {"O": -1, "E": -1}, "rng": "seed", "s": rng.getrandbits(31), "keep": False,
+                        "rscrib": rng.random() < 0.7})
             continue
         if k == "call":
             if heavy_left and rng.random() < 0.12:
